@@ -268,3 +268,16 @@ var families = map[string]*Family{}
 func register(f *Family) { families[f.Name] = f }
 
 func timeSec(n int) time.Duration { return time.Duration(n) * time.Second }
+
+// outSummary prints an output the way the Lean driver does: the bytes when short,
+// otherwise the first 64 bytes, the length and the FNV-1a 64 hash.
+func outSummary(b []byte) string {
+	if len(b) <= 4096 {
+		return hx(b)
+	}
+	h := uint64(14695981039346656037)
+	for _, c := range b {
+		h = (h ^ uint64(c)) * 1099511628211
+	}
+	return fmt.Sprintf("%s..%d..%d", hx(b[:64]), len(b), h)
+}
